@@ -1316,7 +1316,76 @@ def run_l3(ctx, TC=None):
             ctx.bump("cover/radius-larger-than-data")   # conservative (harmless for the property), counted only
 
 
+def run_cwd(ctx):
+    """Relative cache paths and the working directory: two data sets live under the SAME relative names in two directories;
+    the process moves from one to the other between the measurements.  Every measurement - by one worker in this process, by
+    worker processes of the real pool - must count the pairs of the data set in the directory it was called in (brute force)."""
+    import os
+    import yaw
+    rng = ctx.rng
+    here = os.getcwd()
+    try:
+        for rnd in range(ctx.n(2, 6)):
+            cents = [offset(40.0 + 7 * rnd, 12.0, k * 1.2, 0.0) for k in range(3)]
+            centers = impl.AngularCoordinates(np.deg2rad(np.asarray(cents)))
+            lo, hi = np.deg2rad(0.05), np.deg2rad(rng.choice([0.6, 0.9]))
+            cfg = yaw.Configuration.create(rmin=float(lo), rmax=float(hi), unit="rad", edges=[0.1, 0.9], max_workers=1)
+            sets = {}
+            for tag in ("A", "B"):
+                d = os.path.join(ctx.workdir, "cwd_%d" % rnd, tag)
+                shutil.rmtree(d, ignore_errors=True)
+                os.makedirs(d)
+                n = rng.choice([18, 27]) if tag == "A" else rng.choice([12, 21])
+                ref = [p for k in range(3) for p in cluster(rng, cents[k][0], cents[k][1], n // 3, 0.5)]
+                unk = [p for k in range(3) for p in cluster(rng, cents[k][0], cents[k][1], n // 3 + 2, 0.5)]
+                sets[tag] = (d, ref, unk)
+            order = ["A", "B", "A"] if rnd % 2 == 0 else ["B", "A", "B"]
+            for step, tag in enumerate(order):
+                d, ref, unk = sets[tag]
+                os.chdir(d)
+                if not os.path.exists("ref"):
+                    for name, pts, z in (("ref", ref, [0.5] * len(ref)), ("unk", unk, None)):
+                        cols = {"ra": [p[0] for p in pts], "dec": [p[1] for p in pts]}
+                        kw = dict(ra_name="ra", dec_name="dec", patch_centers=centers, max_workers=1)
+                        if z is not None:
+                            cols["z"] = z; kw["redshift_name"] = "z"
+                        impl.Catalog.from_dataframe(name, impl.make_df(cols), **kw)       # a RELATIVE cache path
+                # brute force: unit weights, pairs with lo < angle <= hi, by the patches the library assigned
+                cr, cu = impl.Catalog("ref", max_workers=1), impl.Catalog("unk", max_workers=1)
+                want = np.zeros((3, 3))
+                tie = False
+                for i in range(3):
+                    a = cr[i].coords.to_3d()
+                    for j in range(3):
+                        b = cu[j].coords.to_3d()
+                        ang = np.arccos(np.clip(a @ b.T, -1.0, 1.0))
+                        tie = tie or bool(np.any(np.abs(ang - lo) < 1e-9) or np.any(np.abs(ang - hi) < 1e-9))
+                        want[i, j] = np.count_nonzero((ang > lo) & (ang <= hi))
+                if tie:
+                    ctx.bump("cwd:skipped-near-tie")
+                    continue
+                for workers in (1, 2, 3):
+                    impl.set_threads(max(workers, 1))
+                    try:
+                        cu_w = impl.Catalog("unk", max_workers=workers)
+                        cf = yaw.crosscorrelate(cfg, impl.Catalog("ref", max_workers=workers), cu_w, unk_rand=cu_w, max_workers=workers)[0]
+                    finally:
+                        impl.set_threads(1)
+                    got = np.asarray(cf.dd.counts.counts[0], dtype=float)
+                    ctx.count(key=("cwd", rnd, step, tag, workers), nontrivial=want.sum() > 0, kind="cwd/%s/w%d" % ("first" if step == 0 else "after-chdir", workers))
+                    if got.shape != want.shape or not np.array_equal(got, want):
+                        ctx.fail("c01-count-not-of-the-data-in-the-working-directory:%s" % ("one-worker" if workers == 1 else "worker-processes"),
+                                 "crosscorrelate on catalogs opened by RELATIVE cache paths after the process changed its working directory "
+                                 "(step %d, data set %s, %d workers): DD counts %s, brute force over the data in this directory %s"
+                                 % (step, tag, workers, got.tolist(), want.tolist()),
+                                 dict(order=order, step=step, workers=workers, got=got.tolist(), want=want.tolist()), case=("cwd", rnd, step, workers))
+    finally:
+        os.chdir(here)
+
+
 def run(ctx):
+    impl.set_threads(1)
+    run_cwd(ctx)
     impl.set_threads(1)
     run_l1(ctx)
     TC = run_trees(ctx)
